@@ -36,12 +36,14 @@ META = {
                     'the objects keep their relative order across the P orders (only reference positions move)',
                     'the "printed number" clause is checked as self-consistency with the target; whether that number is '
                     'LaTeX\'s is C08 (not applicable)'],
-    'probe_names': ['label_on_empty_caption', 'ref_in_title', 'ref_in_footnote', 'forward_ref', 'backward_ref', 'inside_ref', 'two_pending_same_label', 'dangling_ref',
+    'probe_names': ['label_on_empty_caption', 'label_after_closed_inner_env', 'label_on_unnumbered_heading', 'ref_in_title', 'ref_in_footnote', 'forward_ref', 'backward_ref', 'inside_ref', 'two_pending_same_label', 'dangling_ref',
                     'pageref', 'label_on_item', 'label_on_caption', 'label_on_theorem', 'unlabelled_between'],
     'shrink_budget': 300,
 }
 
-KINDS = ['section', 'subsection', 'equation', 'item', 'item2', 'figure', 'figure0', 'table', 'theorem', 'lemma', 'prop']
+KINDS = ['section', 'subsection', 'equation', 'item', 'item2', 'figure', 'figure0', 'table', 'theorem', 'lemma', 'prop',
+         'subsubsection', 'paragraph', 'figurec', 'tablec']
+HEADINGS = ('section', 'subsection', 'subsubsection', 'paragraph')
 
 
 def generate(seed, tier):
@@ -202,7 +204,7 @@ def compile_doc(events):
         o, inner = e[1], e[2]
         k, m = o['kind'], o['m']
         # references written inside the TITLE / CAPTION of the object itself
-        intitle = [x for x in inner if x.get('place') == 'title' and k in ('section', 'subsection', 'figure', 'table')]
+        intitle = [x for x in inner if x.get('place') == 'title' and k in HEADINGS + ('figure', 'table', 'figurec', 'tablec')]
         inner = [x for x in inner if not any(x is y for y in intitle)]
         ttl = ''.join(' ' + _ref_tex(x, '') for x in intitle)
         half = len(inner) // 2
@@ -213,7 +215,8 @@ def compile_doc(events):
         post = ' '.join(_ref_par(x) for x in inner[half:])
         key = (_mac(o['label']) if o.get('lmac') else o['label']) if o['label'] else None
         lab = ('\\label{%s}' % ((' %s ' % key) if o.get('lsp') else key)) if o['label'] else ''
-        if k in ('section', 'subsection'):
+        if k in HEADINGS:
+            # (subsubsection and paragraph lie beyond the default sec-num-depth: unnumbered, but labelled all the same)
             lines.append('\\%s{T%s%s}%s' % (k, m, ttl, lab))
             lines.append('%s body%s %s' % (pre, m, post))
         elif k == 'equation':
@@ -233,6 +236,10 @@ def compile_doc(events):
             lines.append('\\begin{prop}%s %s %s %s\\end{prop}' % (lab, pre, m, post))
         elif k in ('figure', 'table'):
             lines.append('\\begin{%s} %s \\caption{C%s%s}%s %s\\end{%s}' % (k, pre, m, ttl, lab, post, k))
+        elif k in ('figurec', 'tablec'):
+            # the caption sits in an inner environment that is closed again when the \label comes
+            env = k[:-1]
+            lines.append('\\begin{%s}\\begin{center} %s \\caption{C%s%s}\\end{center}%s %s\\end{%s}' % (env, pre, m, ttl, lab, post, env))
         elif k == 'figure0':
             # a float whose caption is EMPTY (the labelled node has no children when later references are read)
             lines.append('\\begin{figure} %s F%s \\caption{}%s %s\\end{figure}' % (pre, m, lab, post))
@@ -259,7 +266,8 @@ def _all_nodes(node, out):
 
 EXPECT_NODE = {'section': ('section',), 'subsection': ('subsection',), 'equation': ('equation',), 'item': ('item',),
                'figure': ('caption',), 'table': ('caption',), 'theorem': ('thm', 'thmenv'), 'item2': ('item',),
-               'lemma': ('lem', 'thmenv'), 'figure0': ('caption',), 'prop': ('prop', 'thmenv')}
+               'lemma': ('lem', 'thmenv'), 'figure0': ('caption',), 'prop': ('prop', 'thmenv'),
+               'subsubsection': ('subsubsection',), 'paragraph': ('paragraph',), 'figurec': ('caption',), 'tablec': ('caption',)}
 
 
 def run_doc(events, objs):
@@ -280,7 +288,7 @@ def run_doc(events, objs):
                         while fig is not None and fig.nodeName != 'figure':
                             fig = fig.parentNode
                         txt = 'C' + o['m'] if fig is not None and ('F' + o['m']) in str(fig.textContent).split() else ''
-                    elif o['kind'] in ('section', 'subsection'):
+                    elif o['kind'] in HEADINGS:
                         txt = n.attributes['title'].textContent
                     else:
                         txt = n.textContent
@@ -397,8 +405,12 @@ def _probes(ev, objs, refs, info):
                     info['two_pending_same_label'] = 1
                 if o['kind'] in ('item', 'item2'):
                     info['label_on_item'] = 1
-                if o['kind'] in ('figure', 'table', 'figure0'):
+                if o['kind'] in ('figure', 'table', 'figure0', 'figurec', 'tablec'):
                     info['label_on_caption'] = 1
+                if o['kind'] in ('figurec', 'tablec'):
+                    info['label_after_closed_inner_env'] = 1
+                if o['kind'] in ('subsubsection', 'paragraph'):
+                    info['label_on_unnumbered_heading'] = 1
                 if o['kind'] == 'figure0':
                     info['label_on_empty_caption'] = 1
                 if o['kind'] in ('theorem', 'lemma', 'prop'):
@@ -435,6 +447,9 @@ def _one(x, seen, pending, info):
         pending[x['label']] = pending.get(x['label'], 0) + 1
 
 
+NO_NUMBER_CHECK = '<none>'
+
+
 def expected_numbers(objs):
     """The number LaTeX's article class prints for each generated object (sequential counters; subsections
     numbered within the current section; every generated enumerate has one item)."""
@@ -450,8 +465,13 @@ def expected_numbers(objs):
         if k in ('item', 'item2'):
             out[o['m']] = '1' if k == 'item' else '2'
             continue
-        if k == 'figure0':
+        if k in ('subsubsection', 'paragraph'):
+            out[o['m']] = NO_NUMBER_CHECK      # beyond sec-num-depth: no number is printed
+            continue
+        if k in ('figure0', 'figurec'):
             k = 'figure'
+        if k == 'tablec':
+            k = 'table'
         if k == 'lemma':
             k = 'theorem'           # \newtheorem{lem}[thm]{Lemma}: shares the theorem counter
         n[k] += 1
@@ -482,7 +502,7 @@ def _judge(tr, p, out, ids, extra, objs, refs, expected, label_of):
             if d['target_id'] != x['label']:
                 return {'sig': 'C09|target|id|%s' % tr, 'detail': {'ref': x, 'order': p, 'got': d}}
             # "its printed number is the object's number"
-            if tr == 'doc' and d.get('number') != numbers.get(exp):
+            if tr == 'doc' and numbers.get(exp) != NO_NUMBER_CHECK and d.get('number') != numbers.get(exp):
                 kind = [o['kind'] for o in objs if o['m'] == exp][0]
                 return {'sig': 'C09|number|%s' % kind, 'detail': {'ref': x, 'order': p, 'object': exp, 'expected_number': numbers.get(exp), 'got': d}}
         else:
